@@ -50,7 +50,9 @@ TRUSTED = [
     "(os.rename onto an existing file raises there) are not modelled",
     "buffering inside the file object is abstracted: what is on disk at A after a failing open/write/close is an unconstrained parameter of the fault",
     "only the json file type of _save_content is modelled (yaml/toml/csv/pickle branches have the same shape but are not covered)",
-    "the clause 'patch reproduces B' is a composition: Section hypotheses apply(delta a b) a = b (property C01), unpickle(pickle d) = d (C14) and the JSON dump/load round trip",
+    "the clause 'patch reproduces B': for JSON documents the C01 premise is discharged (C20_patch_reproduces_json_docs, guards wf + alias-free + no '__' keys); "
+    "still premises: the C01 oracle conditions, conv_json_ok (list(x)/dict(x) on JSON values), unpickle(pickle d) = d (C14, not connected) and the JSON dump/load round trip; "
+    "path rendering/parsing (C09) is outside the Delta model",
 ]
 ASSUMPTIONS = [
     "keys starting with '__' are ignored by `deep diff` by default (ignore_private_variables): generated documents avoid them",
